@@ -505,16 +505,20 @@ Record obind := mkObind {
   ob_type : btype;             (* BSchedule | BValidating | BMutating | BConversion *)
   ob_name : bytes;             (* BindingName *)
   ob_incl : list bytes;        (* IncludeSnapshotsFrom (after the merge with the group's kubernetes bindings) *)
-  ob_group : bytes }.          (* Group *)
+  ob_group : bytes;            (* Group *)
+  ob_crd : bytes;              (* conversion bindings: Webhook.CrdName ([] otherwise) *)
+  ob_rules : list (bytes * bytes) }.   (* conversion bindings: Webhook.Rules = the `conversions` (fromVersion, toVersion) *)
 
 (* what makes the controllers create contexts *)
 Inductive hevent :=
 | HSync (name : bytes)                           (* EnableKubernetesBindings: the Synchronization of that kubernetes binding *)
 | HWatch (name : bytes) (t : wevent) (w : wobj)  (* a watch event delivered to that binding's informer *)
-| HOther (k : nat) (review : json) (from to : bytes).
-    (* the k-th other binding: a crontab tick (schedule), an AdmissionReview request
-       (validating/mutating: [review] is the AdmissionReview), a ConversionReview request for the
-       rule from->to (conversion) *)
+| HOther (k : nat) (review : json)
+    (* the k-th other binding, a schedule or an admission binding: a crontab tick (schedule), an
+       AdmissionReview request (validating/mutating: [review] is the AdmissionReview) *)
+| HConv (crd : bytes) (review : json) (from to : bytes).
+    (* HandleConversionEvent(crdName, request, rule): a ConversionReview request for the CRD that
+       the conversion chain resolved to the rule from->to (C15 is about the chain) *)
 
 Record hcase := mkHcase {
   hk_kube : list (binding * list wobj);    (* kubernetes bindings with the objects their monitors list at start *)
@@ -556,13 +560,39 @@ Definition hk_include_from (hc : hcase) (bt : btype) (name : bytes) : list bytes
   | BOnStartup | BOther => []
   end.
 
-(* scheduleBindingsController / AdmissionBindingsController / ConversionBindingsController HandleEvent *)
-Definition ctx_of_obind (o : obind) (review : json) (from to : bytes) : ctx :=
+(* scheduleBindingsController / AdmissionBindingsController HandleEvent *)
+Definition ctx_of_obind (o : obind) (review : json) : ctx :=
   let adm := match ob_type o with BValidating | BMutating => true | _ => false end in
-  let conv := match ob_type o with BConversion => true | _ => false end in
   mkCtx (ob_type o) false (ob_incl o) false (ob_group o) (ob_name o) KEmpty WNone [] []
-        (if adm then Some review else None) (if conv then Some review else None)
-        (if conv then from else []) (if conv then to else []).
+        (if adm then Some review else None) None [] [].
+
+(* ConversionBindingsController.  EnableConversionBindings:
+     for _, config := range Bindings { for _, conv := range config.Webhook.Rules {
+         Links[config.Webhook.CrdName][conv] = &Link{BindingName, IncludeSnapshots, Group,
+                                                     FromVersion: conv.FromVersion, ToVersion: conv.ToVersion} } }
+   one link PER RULE, holding that rule's versions; a later binding that declares the same rule
+   for the same CRD replaces the link.  HandleEvent(crdName, request, rule) answers with
+   Links[crdName][rule]: Binding, FromVersion, ToVersion, IncludeSnapshots, Group of the link. *)
+Definition rule_eqb (from to : bytes) (r : bytes * bytes) : bool :=
+  bytes_eqb from (fst r) && bytes_eqb to (snd r).
+
+Definition conv_match (crd from to : bytes) (o : obind) : bool :=
+  btype_eqb (ob_type o) BConversion && bytes_eqb crd (ob_crd o) && existsb (rule_eqb from to) (ob_rules o).
+
+(* the link that is left for (crd, rule): the last binding that declares it, with the versions
+   of the declared rule *)
+Definition conv_link (hc : hcase) (crd from to : bytes) : option (obind * (bytes * bytes)) :=
+  match find (conv_match crd from to) (rev (hk_other hc)) with
+  | Some o => match find (rule_eqb from to) (ob_rules o) with
+              | Some r => Some (o, r)
+              | None => None
+              end
+  | None => None
+  end.
+
+Definition ctx_of_conv (o : obind) (r : bytes * bytes) (review : json) : ctx :=
+  mkCtx BConversion false (ob_incl o) false (ob_group o) (ob_name o) KEmpty WNone [] []
+        None (Some review) (fst r) (snd r).
 
 (* AdmissionBindingsController: AdmissionLinks is a map keyed by the WebhookId, which
    hook_manager derives from the binding NAME alone (UpdateIds("", BindingName)) — for validating
@@ -600,9 +630,17 @@ Definition hk_contexts (hc : hcase) (pre : list hevent) (ev : hevent) : list (li
           end
       | None => []
       end
-  | HOther k review from to =>
+  | HOther k review =>
       match nth_error (hk_other hc) k with
-      | Some o => [([], ctx_of_obind (if is_adm (ob_type o) then adm_link hc o else o) review from to)]
+      | Some o => match ob_type o with
+                  | BConversion => []     (* conversion bindings are reached through (crd, rule) only *)
+                  | _ => [([], ctx_of_obind (if is_adm (ob_type o) then adm_link hc o else o) review)]
+                  end
+      | None => []
+      end
+  | HConv crd review from to =>
+      match conv_link hc crd from to with
+      | Some (o, r) => [([], ctx_of_conv o r review)]
       | None => []
       end
   end.
